@@ -49,7 +49,13 @@ func CheckRun(rep *vh.Report, run *Run, sc any) {
 			viol("panic", "panic in the submission: "+c.Panic, c)
 			continue
 		}
-		if strings.HasPrefix(c.Res, "other:") {
+		if np := len(c.Posts); np > 0 && retryable[c.Posts[np-1].Cls] && c.CtxErrAtRet == "" {
+			// whatever error came back (its type does not matter): the last response was one that must be retried
+			// and the caller's context was alive, yet the submission gave up
+			p := c.Posts[np-1]
+			viol("gave-up-after:"+p.Cls+":"+p.Spec.Var, fmt.Sprintf("the submission returned (%s) after a response of class %s (variant %q) that must be retried, "+
+				"although its context had not ended (%d further scripted responses were never requested)", c.Res, p.Cls, p.Spec.Var, max(0, len(c.Spec.Script)-np)), c)
+		} else if strings.HasPrefix(c.Res, "other:") {
 			viol("result-kind:"+lastCls(c), "the submission returned an error that is neither the context's error nor an error carrying status and body: "+c.Res, c)
 		}
 		np := len(c.Posts)
